@@ -345,3 +345,5 @@ func envTarWritten() []envTarEntry {
 func envTarClosed() bool { return true }
 func envSetFaults(n int) { envFaultN = n }
 func envFaultsHit() int  { return 0 }
+
+func envTarResetOutput() { envOut.Reset() }
